@@ -99,7 +99,10 @@ fn build(toks: &[&str], log: &Log) -> (C, bool) {
   let mut b = CacheBuilder::<u64, u64, IdBuild>::new()
     .hasher(IdBuild)
     .shards(num(toks[1]) as usize)
-    .janitor_tick_interval(Duration::from_secs(3600))
+    // opp=1 (every insert maintains): the janitor's tick would do real work, keep it away (1 h).
+    // opp=0: a tick is gated by the same 1-in-2^31 chance as inserts, so it is a no-op; a short
+    // tick only lets the janitor thread of a dropped cache exit (it sleeps one tick after disconnect).
+    .janitor_tick_interval(Duration::from_secs(if toks[7] == "1" { 3600 } else { 1 }))
     .maintenance_chance(if toks[7] == "1" { 1 } else { 1u32 << 31 })
     .maintenance_on_introspection(toks[8] == "1")
     .timer_wheel_size(num(toks[5]) as usize);
